@@ -140,14 +140,27 @@ def isAnimated (s : MuxState) : Bool :=
 def hasAlphaChunk (s : MuxState) : Bool :=
   s.frames.any fun f => (splitAlphaAndBitstream f.data).1.isSome
 
-/-- mux.go needsVP8X -/
-def needsVP8X (s : MuxState) : Bool :=
-  isAnimated s || s.iccData.isSome || s.exifData.isSome || s.xmpData.isSome || hasAlphaChunk s
-
 /-- `frameDimensions` as Go `int`s -/
 def frameDims (data : Bytes) : Int × Int :=
   let d := frameDimensions data
   ((d.1 : Int), (d.2 : Int))
+
+/-- mux.go hasDistinctCanvas -/
+def hasDistinctCanvas (s : MuxState) : Bool :=
+  match s.frames with
+  | [] => false
+  | f :: _ =>
+    if s.canvasWidth ≤ 0 ∨ s.canvasHeight ≤ 0 then false
+    else decide ((frameDims f.data).1 ≠ s.canvasWidth ∨ (frameDims f.data).2 ≠ s.canvasHeight)
+
+/-- mux.go needsVP8X -/
+def needsVP8X (s : MuxState) : Bool :=
+  isAnimated s || s.iccData.isSome || s.exifData.isSome || s.xmpData.isSome || hasAlphaChunk s ||
+    hasDistinctCanvas s
+
+/-- needsVP8X before commit 217045d (pinned: an explicit canvas did not force the extended format) -/
+def needsVP8XPinned (s : MuxState) : Bool :=
+  isAnimated s || s.iccData.isSome || s.exifData.isSome || s.xmpData.isSome || hasAlphaChunk s
 
 /-- mux.go canvasSize -/
 def canvasSize (s : MuxState) : Int × Int :=
@@ -164,27 +177,38 @@ def canvasSize (s : MuxState) : Int × Int :=
       (if endX > acc.1 then endX else acc.1, if endY > acc.2 then endY else acc.2)) (0, 0)
     (if m.1 = 0 then 1 else m.1, if m.2 = 0 then 1 else m.2)
 
-/-- the per-frame loop of `validate` -/
-def validateFrames (canvasW canvasH : Int) : List MuxFrame → R Unit
+/-- mux.go detectBitstreamType -/
+def detectBitstreamType (data : Bytes) : Nat :=
+  if data.length > 0 ∧ byteAt data 0 = 0x2f then ccVP8L else ccVP8
+
+/-- the per-frame loop of `validate`; `alphL` = the ALPH-before-VP8L check of commit dac085e is present -/
+def validateFramesWith (alphL : Bool) (canvasW canvasH : Int) : List MuxFrame → R Unit
   | [] => .ok ()
   | f :: rest =>
+    if alphL ∧ (splitAlphaAndBitstream f.data).1.isSome ∧
+        detectBitstreamType (splitAlphaAndBitstream f.data).2 = ccVP8L then .err .validation
     -- Go `/` truncates toward zero; the operands are known non-negative when it is evaluated
-    if f.opts.offsetX < 0 ∨ f.opts.offsetY < 0 ∨
+    else if f.opts.offsetX < 0 ∨ f.opts.offsetY < 0 ∨
        Int.tdiv f.opts.offsetX 2 ≥ maxPositionOff ∨ Int.tdiv f.opts.offsetY 2 ≥ maxPositionOff then
       .err .validation
     else
       let fw := (frameDims f.data).1
       let fh := (frameDims f.data).2
-      if fw = 0 ∨ fh = 0 then validateFrames canvasW canvasH rest
+      if fw = 0 ∨ fh = 0 then validateFramesWith alphL canvasW canvasH rest
       else
         let endX := wrap64 (f.opts.offsetX + fw)
         let endY := wrap64 (f.opts.offsetY + fh)
         if (fw > 0 ∧ endX ≤ f.opts.offsetX) ∨ (fh > 0 ∧ endY ≤ f.opts.offsetY) then .err .validation
         else if endX > canvasW ∨ endY > canvasH then .err .validation
-        else validateFrames canvasW canvasH rest
+        else validateFramesWith alphL canvasW canvasH rest
 
-/-- mux.go validate -/
-def validate (s : MuxState) : R Unit :=
+def validateFrames := validateFramesWith true
+
+/-- `uint64(x)` of a Go `int` -/
+def u64 (x : Int) : Nat := (x % 18446744073709551616).toNat
+
+/-- mux.go validate; `area` = the canvas-area check of commit 73510c8 is present -/
+def validateWith (area alphL : Bool) (s : MuxState) : R Unit :=
   if s.frames.length = 0 then .err .noFrames
   else if isAnimated s ∧ s.frames.length < 1 then .err .validation
   else if ¬ isAnimated s ∧ s.frames.length ≠ 1 then .err .validation
@@ -192,7 +216,11 @@ def validate (s : MuxState) : R Unit :=
     let canvasW := (canvasSize s).1
     let canvasH := (canvasSize s).2
     if canvasW > maxCanvasSize ∨ canvasH > maxCanvasSize then .err .validation
-    else validateFrames canvasW canvasH s.frames
+    else if area ∧ (u64 canvasW * u64 canvasH) % 18446744073709551616 ≥ Webp.Impl.Parser.maxImageArea then
+      .err .validation
+    else validateFramesWith alphL canvasW canvasH s.frames
+
+def validate := validateWith true true
 
 /-- mux.go hasAlpha -/
 def hasAlpha (s : MuxState) : Bool :=
@@ -202,10 +230,6 @@ def hasAlpha (s : MuxState) : Bool :=
       (match parseVP8LDimensions f.data with
        | .ok (_, _, alpha) => alpha
        | _ => false))
-
-/-- mux.go detectBitstreamType -/
-def detectBitstreamType (data : Bytes) : Nat :=
-  if data.length > 0 ∧ byteAt data 0 = 0x2f then ccVP8L else ccVP8
 
 /-- `uint32(x)` -/
 def u32 (x : Nat) : Nat := x % 4294967296
@@ -326,5 +350,12 @@ def assembleExtended (s : MuxState) : R Bytes :=
 def assemble (s : MuxState) : R Bytes := do
   validate s
   if !needsVP8X s then assembleSimple s else assembleExtended s
+
+/-- `Assemble` as it was before the repairs 217045d / 73510c8 / dac085e (pinned variant, used only by
+    the counterexample theorems of C14).  `assembleExtended` calls `isAnimated`, `canvasSize`, … but
+    not `needsVP8X`/`validate`, so it is shared. -/
+def assemblePinned (s : MuxState) : R Bytes := do
+  validateWith false false s
+  if !needsVP8XPinned s then assembleSimple s else assembleExtended s
 
 end Webp.Impl.Mux
